@@ -44,6 +44,7 @@ def _dig(data):
 class ModProxy(object):
     def __init__(self, real, **over):
         object.__setattr__(self, '_real', real)
+        object.__setattr__(self, '_over', dict(over))
         for k, v in over.items():
             object.__setattr__(self, k, v)
 
@@ -243,7 +244,14 @@ def t_monotonic():
     return W.time()
 
 
-time_proxy = ModProxy(_time, time=t_time, sleep=t_sleep, monotonic=t_monotonic)
+def t_ns():
+    W.sys_enter('time')
+    return int(W.now) * 1000
+
+
+# every clock a refactored deadline computation might read is the virtual one
+time_proxy = ModProxy(_time, time=t_time, sleep=t_sleep, monotonic=t_monotonic, perf_counter=t_monotonic,
+                      time_ns=t_ns, monotonic_ns=t_ns, perf_counter_ns=t_ns)
 
 
 # --------------------------------------------------------------- select
@@ -771,9 +779,49 @@ def install():
         _rebind(m, 'subprocess', subprocess_proxy)
         _rebind(m, 'threading', threading_proxy)
     _rebind(pexpect.popen_spawn, 'Queue', SimQueue)
+
+    class _PtyProcessSeam(object):
+        """ptyprocess.PtyProcess as pexpect.pty_spawn sees it: spawn() creates a simulated child (the same thing the
+        SimSpawn._spawnpty override does; this module-level seam keeps working if that private hook is renamed)."""
+
+        def __getattr__(self, name):
+            return getattr(pp.PtyProcess, name)
+
+        def spawn(self, argv, **kwargs):
+            from . import transports
+            pid, fd = W.child_setup(argv, kwargs)
+            inst = transports.SimPtyProcess(pid, fd)
+            inst.argv = argv
+            return inst
+    import ptyprocess as _ptyprocess_pkg
+    _rebind(pexpect.pty_spawn, 'ptyprocess', ModProxy(_ptyprocess_pkg, PtyProcess=_PtyProcessSeam()))
     _rebind(pexpect.pty_spawn, 'which', lambda c, env=None: c)
     pp._EOF = b'\x04'
     pp._INTR = b'\x03'
+    # Aliases taken at import time (`_clock = time.monotonic`, `from os import read`, a class attribute holding select.poll):
+    # rebinding the module attribute `time` would not reach them, so every global of the modules under test, and every
+    # attribute of the classes they define, that IS one of the real functions behind a seam is rebound to its stand-in too.
+    real = {}
+    for proxy in (os_proxy, time_proxy, select_proxy, termios_proxy, fcntl_proxy, tty_proxy, subprocess_proxy, threading_proxy):
+        for name, standin in proxy._over.items():
+            try:
+                real[id(getattr(proxy._real, name))] = standin
+            except AttributeError:
+                pass
+    real[id(_queue.Queue)] = SimQueue
+    for m in mods[:-1]:
+        for name, val in list(vars(m).items()):
+            if id(val) in real and not isinstance(val, ModProxy):
+                setattr(m, name, real[id(val)])
+            elif isinstance(val, type) and getattr(val, '__module__', None) == m.__name__:
+                for an, av in list(vars(val).items()):
+                    raw = av.__func__ if isinstance(av, (staticmethod, classmethod)) else av
+                    try:
+                        hit = id(raw) in real
+                    except Exception:
+                        hit = False
+                    if hit:
+                        setattr(val, an, staticmethod(real[id(raw)]) if isinstance(av, staticmethod) else real[id(raw)])
 
 
 def repo_root():
